@@ -428,5 +428,58 @@ def rule_T9(ctx):
             ctx.ok(nm, "no step or read past the terminator on %d strings (truncated sequences included)" % n)
 
 
+def rule_R14(ctx):
+    """Ignore-case in a bracket range: a character matches [X-Y] when it or its other case lies
+    in the range as written.  brk_match is evaluated abstractly for every range over a set of
+    letter / punctuation end points and every printable character, with and without the flag."""
+    ctx.begin("R14", floor=1, what="bracket ranges under ignore-case")
+    prog = ctx.prog
+    bm = prog.func("brk_match", file="regex.c")
+    am = prog.func("ratom_match", file="regex.c")
+    icase = None
+    for bit in (1, 2, 4, 8, 16, 32, 64, 128):
+        line = (0x41, 0x0a, 0)
+        sp = Ptr(line)
+        st = {"s": Ptr(line, 0, sp.log), "o": sp, "flg": bit, "pc": 0, "dep": 0}
+        try:
+            if Interp(prog).call(am, [{"ra": 0, "s": Ptr((0x61, 0))}, st]) == 0:
+                icase = bit
+                break
+        except (Unsupported, OverRead):
+            continue
+    if icase is None:
+        raise AnalysisBroken("ignore-case flag not found")
+    ends = [ord(c) for c in "AWZ_abz"]
+    n = 0
+    bad = None
+    for x in ends:
+        for y in ends:
+            if y < x:
+                continue
+            brk = Ptr((x, 0x2d, y, 0x5d, 0))          # the text after `[`
+            for c in range(0x20, 0x7f):
+                for flg in (0, icase):
+                    try:
+                        v = Interp(prog).call(bm, [brk, c, flg])
+                    except (Unsupported, OverRead) as e:
+                        raise AnalysisBroken("brk_match not evaluable: %s" % e)
+                    n += 1
+                    alts = {c}
+                    if flg and chr(c).isalpha():
+                        alts.add(ord(chr(c).swapcase()))
+                    want = any(x <= a <= y for a in alts)
+                    if (v == 0) != want and bad is None:
+                        bad = (x, y, c, flg, v == 0, want)
+    if bad:
+        x, y, c, flg, got, want = bad
+        ctx.violation("brk_match", "bracket range under ignore-case",
+                      "[%s-%s] %s %r %s ignore-case, but %s: the ends of the range are folded separately" % (
+                          chr(x), chr(y), "matches" if got else "does not match", chr(c),
+                          "with" if flg else "without", "it should" if want else "it should not"), bm.loc(bm.body))
+    else:
+        ctx.ok("brk_match", "a character matches [X-Y] exactly when it or (with ignore-case) its other case is in "
+               "the range, on %d (range, character, flag) cases" % n)
+
+
 RULES = {"M5": rule_M5, "L6": rule_L6, "P3": rule_P3, "X9": rule_X9, "U6": rule_U6, "T7": rule_T7,
-         "T8": rule_T8, "S6": rule_S6, "S7": rule_S7, "B15": rule_B15, "T9": rule_T9}
+         "T8": rule_T8, "S6": rule_S6, "S7": rule_S7, "B15": rule_B15, "T9": rule_T9, "R14": rule_R14}
